@@ -227,7 +227,8 @@ def run(ctx):
     ctx.extra["deviation_hits"] = {ALL_DEVS[0]: used}
     ctx.sample({"kind": "decision-table case (TLC) replayed on the real samplers and a real Tracer", "case": cases[len(cases) // 3]})
     # -- ratio matrix
-    runs = [(ctx.seed, 250, 16)] if not thorough else [(ctx.seed, 1500, 48), (ctx.seed + 1000, 1500, 48), (ctx.seed + 2000, 400, 120)]
+    runs = [(ctx.seed, 250, 16)] if not thorough else [(ctx.seed, 1500, 48), (ctx.seed + 1000, 1500, 48), (ctx.seed + 2000, 400, 120),
+                                                             (ctx.seed + 3000, 3000, 64), (ctx.seed + 4000, 800, 150)]
     tot = {"rows": 0, "cells": 0, "blocks": 0, "ids": 0}
     first = None
     for k, (sd, nids, nr) in enumerate(runs):
